@@ -179,6 +179,8 @@ func (it *Interp) Apply(op *Op) {
 		it.opBulk(op)
 	case "obsBad":
 		it.opObsBad(op)
+	case "regLocked":
+		it.opRegLocked(op)
 	case "bulkObs":
 		it.opBulkObs(op)
 	case "addBatch", "removeBatch", "exchangeBatch":
